@@ -20,7 +20,8 @@ def canon(G):
 
 
 def snapshot(G):
-    return (tuple(G._next.keys()), {k: (id(v), frozenset(v)) for k, v in G._next.items()})
+    # content only: the property is about the graph's nodes and edges, not about the identity of its containers
+    return {k: frozenset(v) for k, v in G._next.items()}
 
 
 def run(res):
